@@ -736,8 +736,8 @@ func (r *c18Run) exec(line string) {
 	case "wait":
 		if r.off {
 			r.errs = append(r.errs, "wait: the activity stream is disabled")
-		} else if !r.quiesce(15 * time.Second) {
-			r.notes = append(r.notes, "wait: dispatcher did not catch up within 15 s")
+		} else if !r.quiesce(60 * time.Second) {
+			r.notes = append(r.notes, "wait: dispatcher did not catch up within 60 s")
 		}
 	case "flip", "lost", "acquire":
 		// the node loses / regains metadata leadership: the callbacks of server.go, called the way
@@ -902,8 +902,10 @@ func c18RunScript(t *testing.T, script []string) *c18Run {
 		if r.s != nil && !r.crashed && len(r.errs) == 0 && !r.off {
 			// failures are gone by construction of the scripts: give the dispatcher its time
 			r.s.config.ActivityStream.PublishTimeout = 2 * time.Second
-			if !r.quiesce(20 * time.Second) {
-				r.notes = append(r.notes, "final: dispatcher did not catch up within 20 s")
+			// (the dispatcher backs off up to 10 s between attempts and a publish may run into its 2 s time-out on a loaded
+			// machine: "never delivered" is only said after a generous wait; a dispatcher that caught up ends the wait at once)
+			if !r.quiesce(90 * time.Second) {
+				r.notes = append(r.notes, "final: dispatcher did not catch up within 90 s")
 			}
 			r.readRaft()
 			r.msgs = r.readStream()
